@@ -24,7 +24,10 @@ N_DECODE = 25
 
 
 def cases(tier, seed):
-    return D.spec_cases(tier, seed, None, 1100, 14000, "c14")
+    out = D.spec_cases(tier, seed, None, 1100, 14000, "c14")
+    # appended classes of vlib/gen2.py (added after the generator freeze; see DESIGN.md 2.2)
+    from vlib import gen2
+    return out + gen2.appended(tier, seed, "c14", ['A1', 'A3', 'A2', 'A5'], 120, 1200)
 
 
 def run_case(case):
